@@ -70,7 +70,7 @@ func halfwayDecimal32(f float32) model.Val {
 
 func genC15(t *rapid.T) (c C15Case) {
 	c = C15Case{M: h.GenMode(t, "zmode")}
-	c.Op = rapid.SampledFrom([]string{"setfloat64", "setfloat64", "setfloat", "float64", "float64", "float32", "float", "float64f", "float32f"}).Draw(t, "op")
+	c.Op = rapid.SampledFrom([]string{"setfloat64", "setfloat64", "setfloat", "float64", "float64", "float32", "float", "float64f", "float32f", "setfloatx"}).Draw(t, "op")
 	faithful := false
 	if c.Op == "float64f" || c.Op == "float32f" {
 		// same inputs as float64/float32, weaker oracle that also holds inside the known-finding zone
@@ -83,6 +83,33 @@ func genC15(t *rapid.T) (c C15Case) {
 		}
 	}()
 	switch c.Op {
+	case "setfloatx":
+		// big.Float at the ends of its own exponent range (binary exponent within a few hundred of +-2^31):
+		// the decimal value has a nine-digit exponent, the conversion goes through the exponent-limit branch
+		c.FP = uint(rapid.SampledFrom([]int{1, 2, 24, 53, 63, 64, 65, 100, 128, 200}).Draw(t, "fp"))
+		if rapid.Bool().Draw(t, "fprand") {
+			c.FP = uint(rapid.IntRange(1, 300).Draw(t, "fpr"))
+		}
+		m := new(big.Int).Lsh(big.NewInt(1), c.FP-1) // top bit set: MinPrec can reach the full precision
+		low, _ := new(big.Int).SetString(h.GenDigits(t, "fm", int(c.FP)/3+2), 10)
+		m.Or(m, low.Mod(low, m))
+		if rapid.Bool().Draw(t, "fodd") {
+			m.SetBit(m, 0, 1)
+		}
+		if rapid.Bool().Draw(t, "fneg") {
+			m.Neg(m)
+		}
+		c.FM = m.String()
+		if rapid.Bool().Draw(t, "flow") {
+			c.FE = math.MinInt32 + rapid.IntRange(0, 400).Draw(t, "feoff") - int(c.FP) // value = m * 2^FE; exponent of the float = FE + bits(m)
+		} else {
+			c.FE = math.MaxInt32 - rapid.IntRange(0, 400).Draw(t, "feoff") - int(c.FP)
+		}
+		c.P = uint(rapid.IntRange(1, 60).Draw(t, "p"))
+		if rapid.IntRange(0, 4).Draw(t, "p0") == 0 {
+			c.P = 0
+		}
+		c.Z = genRecvPrev(t, c.P, c.M)
 	case "setfloat64":
 		c.Bits = genFloat64Bits(t, "f")
 		switch rapid.IntRange(0, 5).Draw(t, "pcls") {
@@ -238,6 +265,8 @@ func checkC15(c C15Case, o *h.Obs) *h.Fail {
 		return mkRecv(c.P, c.M)
 	}
 	switch c.Op {
+	case "setfloatx":
+		return checkSetFloatExtreme(c, o, recv())
 	case "setfloat64", "setfloat":
 		z := recv()
 		var exactRat *big.Rat
@@ -522,7 +551,89 @@ func checkC15(c C15Case, o *h.Obs) *h.Fail {
 	return h.Failf("bad-case", "op %q", c.Op)
 }
 
-const ruleC15 = "rapid-generated cases. SetFloat64: float64 bit patterns (uniform bits, subnormals, extremes, powers of two, small integers and dyadic fractions, NaN payloads, +-Inf, +-0) x receiver precision {0, 1-6, 15-19, 1-120, 700-800 (holds every expansion)} x modes x previous receiver contents: sign kept, +-0/+-Inf mapped to themselves, NaN => ErrNaN, exact when the expansion fits, else within 1 ulp of the correctly rounded value. SetFloat: big.Float of precision 1..2000 bits, exponents to +-3000 (quick) / +-30000 (thorough), +-0, +-Inf: same, tolerance 64 ulp. Float64/Float32: Decimals exactly halfway between two adjacent floats and halfway +- 10^-k (built from the float), exact expansions of floats (must come back bit for bit), values around MaxFloat / SmallestNonzero / the smallest normal, generic values with exponents inside and far outside the range: the returned bits must equal big.Rat.Float64/Float32 of the exact rational (correctly rounded, ties to even), accuracy == sign(returned - x), saturation to +-Inf / +-0; in the two razor zones where 'nearest' and the documented saturation rule disagree ((Max, Max+half ulp) and (Smallest/2, Smallest)) both answers are accepted and counted. While the known finding F-10 (double rounding) is listed, float64/float32 cases whose value lies within 2^-6 / 2^-3 ulp of a float or of a midpoint are excluded by an input predicate and counted, and the same inputs are also run under a weaker oracle that holds there too (float64f/float32f: the result is one of the two floats enclosing x, sign preserved). Float: within 64 binary ulps at the destination's precision, sign and specials preserved, |exp| <= 5000. Non-trivial = inexact conversion, halfway-adjacent input, subnormal or saturating result."
+// checkSetFloatExtreme: x = m*2^e with e near +-2^31. The exact decimal expansion is out of reach (hundreds of
+// millions of digits); instead both x and the stored Decimal are scaled by the same power of ten into the
+// ordinary range and compared there with 600-bit binary arithmetic (error far below one unit of the comparison).
+func checkSetFloatExtreme(c C15Case, o *h.Obs, z *decimal.Decimal) *h.Fail {
+	m := bigOf(c.FM)
+	x := new(big.Float).SetPrec(c.FP).SetMode(big.ToZero).SetInt(m)
+	if x.Acc() != big.Exact {
+		return h.Failf("INFRA-oracle", "mantissa does not fit %d bits", c.FP)
+	}
+	x.SetMantExp(x, c.FE)
+	if x.IsInf() || x.Sign() == 0 {
+		o.Label("setfloatx:beyond-big.Float-range")
+		return nil
+	}
+	z.SetFloat(x)
+	got := h.Read(z)
+	if got.Malformed != "" {
+		return h.Failf("malformed", "SetFloat(m*2^%d): %v", c.FE, got)
+	}
+	o.NonTrivial()
+	wantPrec := c.P
+	if wantPrec == 0 {
+		wantPrec = uint(math.Ceil(float64(c.FP) * (math.Ln2 / math.Ln10)))
+	}
+	if got.Form != model.Finite || got.Neg != (m.Sign() < 0) {
+		return h.Failf("class", "SetFloat(%s * 2^%d) (a finite value of about 10^%d) = %v", h.FirstN(c.FM, 40), c.FE, int64(float64(c.FE+m.BitLen())*0.30103), got.Val())
+	}
+	if got.Prec != wantPrec {
+		return h.Failf("attrs", "precision %d want %d", got.Prec, wantPrec)
+	}
+	// k = decimal exponent of the stored value; compare x*10^-k with stored*10^-k = 0.digits
+	k := got.Exp
+	const wp = 600
+	t := new(big.Float).SetPrec(wp).Set(x)
+	pow10f := func(n int64) *big.Float { // 10^n by squaring (about 30 multiplications), n >= 0
+		pow := new(big.Float).SetPrec(wp).SetInt64(1)
+		base := new(big.Float).SetPrec(wp).SetInt64(10)
+		for n > 0 {
+			if n&1 == 1 {
+				pow.Mul(pow, base)
+			}
+			n >>= 1
+			if n > 0 {
+				base.Mul(base, base)
+			}
+		}
+		return pow
+	}
+	n := k
+	if n < 0 {
+		n = -n
+	}
+	// 10^|k| itself is at the edge of big.Float's range: scale in two halves
+	for _, part := range []int64{n / 2, n - n/2} {
+		pw := pow10f(part)
+		if pw.IsInf() {
+			return h.Failf("INFRA-oracle", "scaling factor overflow")
+		}
+		if k > 0 {
+			t.Quo(t, pw)
+		} else {
+			t.Mul(t, pw)
+		}
+	}
+	// stored*10^-k as a big.Float
+	sd, _ := new(big.Int).SetString(got.Digits, 10)
+	st := new(big.Float).SetPrec(wp).SetInt(sd)
+	st.Quo(st, new(big.Float).SetPrec(wp).SetInt(new(big.Int).Exp(big.NewInt(10), big.NewInt(int64(len(got.Digits))), nil)))
+	if got.Neg {
+		st.Neg(st)
+	}
+	diff := new(big.Float).SetPrec(wp).Sub(st, t)
+	diff.Abs(diff)
+	// one unit in the wantPrec-th digit of 0.digits is 10^-wantPrec; allow 64 of them (+1 for the oracle's own error)
+	tol := new(big.Float).SetPrec(wp).SetInt64(65)
+	tol.Quo(tol, new(big.Float).SetPrec(wp).SetInt(new(big.Int).Exp(big.NewInt(10), big.NewInt(int64(wantPrec)), nil)))
+	if diff.Cmp(tol) > 0 {
+		return h.Failf("ulp", "SetFloat(%s * 2^%d) at precision %d: stored %v; scaled by 10^%d the binary value is %s, the stored one %s", h.FirstN(c.FM, 40), c.FE, wantPrec, got.Val(), -k, t.Text('g', 40), st.Text('g', 40))
+	}
+	return nil
+}
+
+const ruleC15 = "rapid-generated cases. SetFloat64: float64 bit patterns (uniform bits, subnormals, extremes, powers of two, small integers and dyadic fractions, NaN payloads, +-Inf, +-0) x receiver precision {0, 1-6, 15-19, 1-120, 700-800 (holds every expansion)} x modes x previous receiver contents: sign kept, +-0/+-Inf mapped to themselves, NaN => ErrNaN, exact when the expansion fits, else within 1 ulp of the correctly rounded value. SetFloat: big.Float of precision 1..2000 bits, exponents to +-3000 (quick) / +-30000 (thorough), +-0, +-Inf: same, tolerance 64 ulp. SetFloat at the ends of big.Float's own exponent range (binary exponent within 400 of +-2^31, mantissas with the top and often the lowest bit set, precisions around 64): the stored value must be finite, of the right sign, and within 64 units of the binary value when both are scaled into the ordinary range with 600-bit arithmetic. Float64/Float32: Decimals exactly halfway between two adjacent floats and halfway +- 10^-k (built from the float), exact expansions of floats (must come back bit for bit), values around MaxFloat / SmallestNonzero / the smallest normal, generic values with exponents inside and far outside the range: the returned bits must equal big.Rat.Float64/Float32 of the exact rational (correctly rounded, ties to even), accuracy == sign(returned - x), saturation to +-Inf / +-0; in the two razor zones where 'nearest' and the documented saturation rule disagree ((Max, Max+half ulp) and (Smallest/2, Smallest)) both answers are accepted and counted. While the known finding F-10 (double rounding) is listed, float64/float32 cases whose value lies within 2^-6 / 2^-3 ulp of a float or of a midpoint are excluded by an input predicate and counted, and the same inputs are also run under a weaker oracle that holds there too (float64f/float32f: the result is one of the two floats enclosing x, sign preserved). Float: within 64 binary ulps at the destination's precision, sign and specials preserved, |exp| <= 5000. Non-trivial = inexact conversion, halfway-adjacent input, subnormal or saturating result."
 
 // floatNearBoundary: x lies close to (but not on) a float or close to the midpoint
 // between two adjacent floats, within 32 units of the intermediate 64/32-bit
